@@ -7,6 +7,8 @@
 #include <dirent.h>
 #include <errno.h>
 #include <stdint.h>
+#include <dlfcn.h>
+#include <sys/sendfile.h>
 #define private public            // read-only use: the descriptor of a File, for the cursor dump
 #include <nstd/File.hpp>
 #undef private
@@ -66,12 +68,23 @@ static bool path_op(long c, vh::Tok& t)
 //   fs-<pid>/g1/g2/g3/in    current directory of a case; the tree the operations are meant for
 //   fs-<pid>/g1/g2/g3/out   the outside sentinel, reached through "../out" and symbolic links
 // g1..g3 are guard levels: an operation that climbs out of in/out is seen in the snapshot
-// (entries marked '!') and still lands inside fs-<pid>.  Set-up and snapshots use plain system
-// calls, never the library under test.  The scratch tree is removed at the end of every case.
+// (entries marked '!') and still lands inside fs-<pid>.  Set-up, snapshots and probes use plain
+// system calls, never the library under test.  The scratch tree is removed at the end of every case.
+//
+// Two modes: "@fs" (relative paths only) and "@fsroot" (the process chroots into fs-<pid> for the
+// case, so that absolute path texts and absolute link targets mean the same as in the model, whose
+// root is fs-<pid>; needs uid 0 - without it every operation of the case answers ?nochroot).
+//
+// Observation line:  result | snapshot | handles | probes
+// A probe is what the real kernel (stat / lstat / fstat) says a path text or descriptor denotes,
+// as the name it has in the snapshot ("-" = nothing):  s/e = taken before the operation, d = after.
+// Byte strings longer than 128 bytes are shown as #<length>.<crc32>.
 
 static char base_dir[4096];     // absolute path of fs-<pid>
 static char home_dir[4096];     // where the harness was started
-static bool fs_active = false;
+static const char* walk_root = base_dir;   // what the snapshot walks: base_dir, or "/" inside the chroot
+static bool fs_active = false, fs_chrooted = false, fs_refuse = false;
+static int old_root = -1;
 static File* hnd[8];
 
 static void rm_tree(const char* path)           // never follows symbolic links
@@ -95,6 +108,32 @@ static void rm_tree(const char* path)           // never follows symbolic links
     unlink(path);
 }
 
+static uint32_t crc32_of(const unsigned char* b, size_t n)
+{
+  uint32_t c = 0xffffffffu;
+  for(size_t i = 0; i < n; ++i) {
+    c ^= b[i];
+    for(int k = 0; k < 8; ++k) c = (c >> 1) ^ (0xedb88320u & (0u - (c & 1u)));
+  }
+  return ~c;
+}
+
+// the deterministic byte pattern of mkfbig / writebig (the drivers and the judge have the same one)
+static unsigned char pat(long seed, size_t i) { return (unsigned char)((seed * 17 + (long)i * 131 + (long)(i >> 8) * 7 + (long)(i >> 16) * 3) & 255); }
+
+static size_t render_len(size_t n) { return n <= 128 ? 2 * n + 2 : 40; }
+static void render(char* dst, const unsigned char* b, size_t n)     // appends to dst
+{
+  size_t l = strlen(dst);
+  if(n == 0) { strcpy(dst + l, "-"); return; }
+  if(n > 128) { sprintf(dst + l, "#%zu.%08x", n, (unsigned)crc32_of(b, n)); return; }
+  for(size_t i = 0; i < n; ++i) sprintf(dst + l + 2 * i, "%02x", b[i]);
+}
+static void put_bytes(const unsigned char* b, size_t n)
+{
+  char* s = (char*)malloc(render_len(n) + 1); s[0] = 0; render(s, b, n); fputs(s, stdout); free(s);
+}
+
 static char** snap; static size_t snap_n, snap_cap;
 static void snap_add(char* s)
 {
@@ -103,15 +142,24 @@ static void snap_add(char* s)
 }
 static int snap_cmp(const void* a, const void* b) { return strcmp(*(char* const*)a, *(char* const*)b); }
 
-static void hexcat(char* dst, const unsigned char* b, size_t n)
+// inode -> name in the snapshot (no hard links in the scratch tree, so the name is unique)
+struct Ent { dev_t dev; ino_t ino; char* shown; };
+static Ent* tab; static size_t tab_n, tab_cap;
+static void tab_clear() { for(size_t i = 0; i < tab_n; ++i) free(tab[i].shown); tab_n = 0; }
+static void tab_add(const struct stat& sb, const char* prefix, const char* shown)
 {
-  if(n == 0) { strcat(dst, "-"); return; }
-  size_t l = strlen(dst);
-  for(size_t i = 0; i < n; ++i) sprintf(dst + l + 2 * i, "%02x", b[i]);
+  if(tab_n == tab_cap) { tab_cap = tab_cap ? 2 * tab_cap : 64; tab = (Ent*)realloc(tab, tab_cap * sizeof(Ent)); }
+  char* s = (char*)malloc(strlen(prefix) + strlen(shown) + 1); strcpy(s, prefix); strcat(s, shown);
+  tab[tab_n].dev = sb.st_dev; tab[tab_n].ino = sb.st_ino; tab[tab_n].shown = s; ++tab_n;
+}
+static const char* name_of(const struct stat& sb)
+{
+  for(size_t i = 0; i < tab_n; ++i) if(tab[i].dev == sb.st_dev && tab[i].ino == sb.st_ino) return tab[i].shown;
+  return "?elsewhere";
 }
 
 // abs: path in the real file system; rel: path below fs-<pid> ("" for the root)
-static void snap_walk(const char* abs, const char* rel)
+static void snap_walk(const char* abs, const char* rel, bool collect)
 {
   DIR* d = opendir(abs);
   if(!d) return;
@@ -127,36 +175,65 @@ static void snap_walk(const char* abs, const char* rel)
     bool guard = !strcmp(r2, "g1") || !strcmp(r2, "g1/g2") || !strcmp(r2, "g1/g2/g3");
     bool inside = !strncmp(r2, "g1/g2/g3/", 9);
     if(inside) shown = r2 + 9;
+    tab_add(sb, inside ? "" : "!", shown);
     char* line = 0;
-    if(S_ISDIR(sb.st_mode)) {
+    if(!collect) {
+    } else if(S_ISDIR(sb.st_mode)) {
       if(!guard) { line = (char*)malloc(strlen(r2) + 8); sprintf(line, "%s%s:d", inside ? "" : "!", shown); }
     } else if(S_ISLNK(sb.st_mode)) {
       char t[4096]; ssize_t n = readlink(a2, t, sizeof(t));
       if(n < 0) n = 0;
-      line = (char*)malloc(strlen(r2) + 2 * (size_t)n + 16); sprintf(line, "%s%s:l:", inside ? "" : "!", shown);
-      hexcat(line, (const unsigned char*)t, (size_t)n);
+      line = (char*)malloc(strlen(r2) + render_len((size_t)n) + 16); sprintf(line, "%s%s:l:", inside ? "" : "!", shown);
+      render(line, (const unsigned char*)t, (size_t)n);
     } else {
       size_t cap = (size_t)sb.st_size + 1; unsigned char* buf = (unsigned char*)malloc(cap);
       size_t n = 0;
       int fd = open(a2, O_RDONLY | O_NOFOLLOW);
       if(fd >= 0) { ssize_t k; while(n < cap && (k = read(fd, buf + n, cap - n)) > 0) n += (size_t)k; close(fd); }
-      line = (char*)malloc(strlen(r2) + 2 * n + 16); sprintf(line, "%s%s:f:", inside ? "" : "!", shown);
-      hexcat(line, buf, n);
+      line = (char*)malloc(strlen(r2) + render_len(n) + 16); sprintf(line, "%s%s:f:", inside ? "" : "!", shown);
+      render(line, buf, n);
       free(buf);
     }
     if(line) snap_add(line);
-    if(S_ISDIR(sb.st_mode)) snap_walk(a2, r2);
+    if(S_ISDIR(sb.st_mode)) snap_walk(a2, r2, collect);
   }
   closedir(d);
 }
 
-static void print_snapshot()
+static void take_snapshot(bool print)
 {
   snap_n = 0;
-  snap_walk(base_dir, "");
+  tab_clear();
+  struct stat sb;
+  if(lstat(walk_root, &sb) == 0) tab_add(sb, "!", ".");
+  snap_walk(walk_root, "", print);
+  if(!print) return;
   qsort(snap, snap_n, sizeof(char*), snap_cmp);
   if(snap_n == 0) printf("-");
   for(size_t i = 0; i < snap_n; ++i) { printf("%s%s", i ? " " : "", snap[i]); free(snap[i]); }
+}
+
+// ---- probes ---------------------------------------------------------------------------------------
+static char probes[6][8300]; static int probe_n;
+static struct { char key[4]; char path[8192]; bool follow; } later[4]; static int later_n;
+
+static void probe_put(const char* key, const char* path, bool follow)
+{
+  struct stat sb;
+  int r = follow ? stat(path, &sb) : lstat(path, &sb);
+  snprintf(probes[probe_n++], sizeof(probes[0]), "%s=%s", key, r == 0 ? name_of(sb) : "-");
+}
+static void probe_now(const char* key, const String& path, bool follow) { probe_put(key, path, follow); }
+static void probe_after(const char* key, const String& path, bool follow)
+{
+  snprintf(later[later_n].key, sizeof(later[0].key), "%s", key);
+  snprintf(later[later_n].path, sizeof(later[0].path), "%s", (const char*)path);
+  later[later_n].follow = follow; ++later_n;
+}
+static void probe_fd(const char* key, int fd)
+{
+  struct stat sb;
+  snprintf(probes[probe_n++], sizeof(probes[0]), "%s=%s", key, fstat(fd, &sb) == 0 ? name_of(sb) : "-");
 }
 
 static bool handle_is_dir(int h)
@@ -180,20 +257,48 @@ static void print_handles()
 
 static void fin(long c)
 {
-  printf(" | "); print_snapshot(); printf(" | "); print_handles(); printf("\n");
+  printf(" | "); take_snapshot(true); printf(" | "); print_handles(); printf(" | ");
+  for(int i = 0; i < later_n; ++i) probe_put(later[i].key, later[i].path, later[i].follow);
+  if(probe_n == 0) printf("-");
+  for(int i = 0; i < probe_n; ++i) printf("%s%s", i ? " " : "", probes[i]);
+  printf("\n");
+  probe_n = later_n = 0;
   (void)c;
 }
+
+// ---- outcome oracle for sendfile (a legal kernel may transfer less than asked, or fail) -----------
+static long inj[16]; static int inj_n, inj_i;
+typedef ssize_t (*sendfile_fn)(int, int, off_t*, size_t);
+static ssize_t sendfile_hook(const char* name, int out, int in, off_t* off, size_t count)
+{
+  sendfile_fn real = (sendfile_fn)dlsym(RTLD_NEXT, name);
+  if(inj_i < inj_n) {
+    long k = inj[inj_i++];
+    if(k < 0) { errno = EIO; return -1; }
+    if((size_t)k < count) count = (size_t)k;
+    if(count == 0) return 0;
+  }
+  return real(out, in, off, count);
+}
+extern "C" ssize_t sendfile(int out, int in, off_t* off, size_t count) { return sendfile_hook("sendfile", out, in, off, count); }
+extern "C" ssize_t sendfile64(int out, int in, off64_t* off, size_t count) { return sendfile_hook("sendfile64", out, in, (off_t*)off, count); }
 
 static void fs_end()
 {
   if(!fs_active) return;
   for(int h = 0; h < 8; ++h) { delete hnd[h]; hnd[h] = 0; }
+  if(fs_chrooted) {
+    if(fchdir(old_root) != 0 || chroot(".") != 0) _exit(3);
+    close(old_root); old_root = -1; fs_chrooted = false;
+  }
+  walk_root = base_dir;
   if(chdir(home_dir) != 0) _exit(3);
   rm_tree(base_dir);
-  fs_active = false;
+  fs_active = false; fs_refuse = false;
+  inj_n = inj_i = 0;
 }
 
-static void fs_begin()
+static void fs_begin(bool as_root)
 {
   fs_end();
   if(!getcwd(home_dir, sizeof(home_dir))) _exit(3);
@@ -202,67 +307,102 @@ static void fs_begin()
   char p[8192];
   const char* levels[] = {"", "/g1", "/g1/g2", "/g1/g2/g3", "/g1/g2/g3/in", "/g1/g2/g3/out"};
   for(int i = 0; i < 6; ++i) { snprintf(p, sizeof(p), "%s%s", base_dir, levels[i]); if(mkdir(p, 0755) != 0) { perror(p); _exit(3); } }
-  snprintf(p, sizeof(p), "%s/g1/g2/g3/in", base_dir);
-  if(chdir(p) != 0) _exit(3);
   fs_active = true;
+  if(as_root) {
+    old_root = open("/", O_RDONLY | O_DIRECTORY);
+    if(old_root < 0 || chroot(base_dir) != 0) { if(old_root >= 0) close(old_root); old_root = -1; fs_refuse = true; }
+    else { fs_chrooted = true; walk_root = "/"; }
+  }
+  snprintf(p, sizeof(p), "%s/g1/g2/g3/in", fs_chrooted ? "" : base_dir);
+  if(chdir(p) != 0) _exit(3);
+  take_snapshot(false);
+  probe_n = later_n = 0;
 }
 
 static bool fs_op(long c, vh::Tok& t)
 {
   const char* o = t.v[0];
-  int h = (t.n > 1 && (!strcmp(o, "open") || !strcmp(o, "close") || !strcmp(o, "write") || !strcmp(o, "read") ||
+  int h = (t.n > 1 && (!strcmp(o, "open") || !strcmp(o, "close") || !strcmp(o, "write") || !strcmp(o, "read") || !strcmp(o, "writebig") ||
                        !strcmp(o, "readall") || !strcmp(o, "seek") || !strcmp(o, "size"))) ? atoi(t.v[1]) & 7 : -1;
   bool handle_op = h >= 0 && strcmp(o, "open") && strcmp(o, "close");
   if(!fs_active) return false;
+  if(fs_refuse) { printf("%ld ?nochroot\n", c); return true; }
   if(handle_op && !(hnd[h] && hnd[h]->isOpen())) { printf("%ld ?closed", c); fin(c); return true; }
   if(handle_op && handle_is_dir(h)) { printf("%ld ?dir", c); fin(c); return true; }
+  if(handle_op) probe_fd("t", (int)(intptr_t)hnd[h]->fp);
   if(!strcmp(o, "mkd")) {
     printf("%ld %d", c, mkdir(arg(t.v[1]), 0755) == 0 ? 1 : 0);
-  } else if(!strcmp(o, "mkf")) {
-    String p = arg(t.v[1]); size_t n; unsigned char* d = vh::unhex(t.v[2], n);
+  } else if(!strcmp(o, "mkf") || !strcmp(o, "mkfbig")) {
+    String p = arg(t.v[1]); size_t n; unsigned char* d;
+    if(!strcmp(o, "mkf")) d = vh::unhex(t.v[2], n);
+    else { long seed = atol(t.v[2]); n = (size_t)atol(t.v[3]); d = (unsigned char*)malloc(n ? n : 1); for(size_t i = 0; i < n; ++i) d[i] = pat(seed, i); }
     int fd = open(p, O_CREAT | O_EXCL | O_WRONLY | O_NOFOLLOW, 0644);
-    bool ok = fd >= 0 && write(fd, d, n) == (ssize_t)n;
+    bool ok = fd >= 0;
+    for(size_t done = 0; ok && done < n; ) { ssize_t k = write(fd, d + done, n - done); if(k <= 0) ok = false; else done += (size_t)k; }
     if(fd >= 0) close(fd);
     free(d);
     printf("%ld %d", c, ok ? 1 : 0);
   } else if(!strcmp(o, "mkl")) {
     String tg = arg(t.v[1]), p = arg(t.v[2]);
     printf("%ld %d", c, symlink(tg, p) == 0 ? 1 : 0);
+  } else if(!strcmp(o, "inject")) {                   // outcomes of the next sendfile calls: -1 fails, n >= 0 transfers at most n bytes
+    inj_n = inj_i = 0;
+    for(int i = 1; i < t.n && inj_n < 16; ++i) inj[inj_n++] = atol(t.v[i]);
+    printf("%ld -", c);
   } else if(!strcmp(o, "open")) {
     if(!hnd[h]) hnd[h] = new File;
-    printf("%ld %d", c, hnd[h]->open(arg(t.v[2]), (uint)atoi(t.v[3])) ? 1 : 0);
+    String p = arg(t.v[2]);
+    probe_after("d", p, true);
+    printf("%ld %d", c, hnd[h]->open(p, (uint)atoi(t.v[3])) ? 1 : 0);
   } else if(!strcmp(o, "close")) {
     if(hnd[h]) hnd[h]->close();
     printf("%ld -", c);
   } else if(!strcmp(o, "write")) {
     printf("%ld %d", c, hnd[h]->write(arg(t.v[2])) ? 1 : 0);
+  } else if(!strcmp(o, "writebig")) {
+    long seed = atol(t.v[2]); size_t n = (size_t)atol(t.v[3]);
+    char* d = (char*)malloc(n ? n : 1); for(size_t i = 0; i < n; ++i) d[i] = (char)pat(seed, i);
+    String s(d, n); free(d);
+    printf("%ld %d", c, hnd[h]->write(s) ? 1 : 0);
   } else if(!strcmp(o, "read")) {
     size_t n = (size_t)atol(t.v[2]);
     unsigned char* b = (unsigned char*)malloc(n ? n : 1);
     ssize r = hnd[h]->read(b, n);
     printf("%ld ", c);
-    if(r < 0) printf("-1"); else vh::puthex(b, (size_t)r);
+    if(r < 0) printf("-1"); else put_bytes(b, (size_t)r);
     free(b);
   } else if(!strcmp(o, "readall")) {
     String d; bool ok = hnd[h]->readAll(d);
-    printf("%ld %d ", c, ok ? 1 : 0); put(d);
+    printf("%ld %d ", c, ok ? 1 : 0); put_bytes((const unsigned char*)(const char*)d, d.length());
   } else if(!strcmp(o, "seek")) {
     int wh = atoi(t.v[3]);
     printf("%ld %lld", c, (long long)hnd[h]->seek(atoll(t.v[2]), wh == 0 ? File::setPosition : wh == 1 ? File::currentPosition : File::endPosition));
   } else if(!strcmp(o, "size")) {
     printf("%ld %lld", c, (long long)hnd[h]->size());
   } else if(!strcmp(o, "funlink")) {
-    printf("%ld %d", c, File::unlink(arg(t.v[1])) ? 1 : 0);
+    String p = arg(t.v[1]);
+    probe_now("s", p, false);
+    printf("%ld %d", c, File::unlink(p) ? 1 : 0);
   } else if(!strcmp(o, "symlink")) {
-    printf("%ld %d", c, File::createSymbolicLink(arg(t.v[1]), arg(t.v[2])) ? 1 : 0);
+    String p = arg(t.v[2]);
+    probe_after("d", p, false);
+    printf("%ld %d", c, File::createSymbolicLink(arg(t.v[1]), p) ? 1 : 0);
   } else if(!strcmp(o, "rename")) {
-    printf("%ld %d", c, File::rename(arg(t.v[1]), arg(t.v[2]), atoi(t.v[3]) != 0) ? 1 : 0);
+    String a = arg(t.v[1]), b = arg(t.v[2]);
+    probe_now("s", a, false); probe_now("e", b, false); probe_after("d", b, false);
+    printf("%ld %d", c, File::rename(a, b, atoi(t.v[3]) != 0) ? 1 : 0);
   } else if(!strcmp(o, "copy")) {
-    printf("%ld %d", c, File::copy(arg(t.v[1]), arg(t.v[2]), atoi(t.v[3]) != 0) ? 1 : 0);
+    String a = arg(t.v[1]), b = arg(t.v[2]);
+    probe_now("s", a, true); probe_now("e", b, true); probe_after("d", b, true);
+    printf("%ld %d", c, File::copy(a, b, atoi(t.v[3]) != 0) ? 1 : 0);
+    inj_n = inj_i = 0;
   } else if(!strcmp(o, "exists")) {
-    printf("%ld %d", c, Directory::exists(arg(t.v[1])) ? 1 : 0);
+    String p = arg(t.v[1]);
+    probe_now("s", p, true);
+    printf("%ld %d", c, Directory::exists(p) ? 1 : 0);
   } else if(!strcmp(o, "create") || !strcmp(o, "dunlink")) {
     String p = arg(t.v[1]);
+    if(!strcmp(o, "create")) probe_after("d", p, true); else probe_now("s", p, false);
     bool r = !strcmp(o, "create") ? Directory::create(p) : Directory::unlink(p, atoi(t.v[2]) != 0);
     struct stat sb;                                   // the harness's own look, not the library's
     bool there = stat(p, &sb) == 0 && S_ISDIR(sb.st_mode);
@@ -275,7 +415,9 @@ static bool fs_op(long c, vh::Tok& t)
 
 static void begin(long, vh::Tok& t)
 {
-  if(t.n > 2 && !strcmp(t.v[2], "fs")) fs_begin(); else fs_end();
+  if(t.n > 2 && !strcmp(t.v[2], "fs")) fs_begin(false);
+  else if(t.n > 2 && !strcmp(t.v[2], "fsroot")) fs_begin(true);
+  else fs_end();
 }
 
 static void end(long) { fs_end(); }
